@@ -55,19 +55,30 @@ Theorem C23_reopen_restores : forall pyeq set q s st,
 Proof. exact reopen_restores. Qed.
 Print Assumptions C23_reopen_restores.
 
+(* A rejected operation — extend/update of a batch with a member that is not a RegDom at any
+   position, push/remove/put/add of such a value — leaves the cached content and the durable
+   store exactly as they were (all-or-nothing), in every state and over every store machine;
+   the histories of the theorems above may contain such operations anywhere. *)
+Theorem C23_rejected_identity : forall pyeq (S : Type) sstep sview set q (s : S) st o,
+  rejected o = true ->
+  let '(s', st', r) := gstep pyeq S sstep sview set q s st o in
+  s' = s /\ mem st' = mem st /\ (exists k, r = Exc k).
+Proof. exact rejected_identity. Qed.
+Print Assumptions C23_rejected_identity.
+
 (* Non-vacuity: a history with duplicates, pulls, a crash point and a preloaded re-injection,
    for both kinds, satisfies the hypotheses and behaves as stated. *)
 Example C23_example :
   let ops := [(0, Push v_int); (0, Push v_flt); (1, Extend [v_int; v_int; v_flt]); (0, Push v_int);
               (0, Reopen []); (0, Pull true); (1, Reopen [v_flt]); (1, Remove v_int); (1, Clear);
-              (1, Reopen [v_flt; v_flt]); (0, Pull false)]%N in
+              (1, Reopen [v_flt; v_flt]); (0, ExtendBad [v_int] [v_flt]); (0, Pull false)]%N in
   Forall (fun qo => wf_op (snd qo)) ops /\
   map sn_mem (qrun bytes_eqb false store0 queues0 ops) =
     [[v_int]; [v_int; v_flt]; [v_int; v_int; v_flt]; [v_int; v_flt; v_int]; [v_int; v_flt; v_int];
-     [v_flt; v_int]; [v_int; v_int; v_flt]; [v_int; v_int; v_flt]; []; [v_flt; v_flt]; [v_int]] /\
+     [v_flt; v_int]; [v_int; v_int; v_flt]; [v_int; v_int; v_flt]; []; [v_flt; v_flt]; [v_flt; v_int]; [v_int]] /\
   map sn_mem (qrun bytes_eqb true store0 queues0 ops) =
     [[v_int]; [v_int; v_flt]; [v_int; v_flt]; [v_int; v_flt]; [v_int; v_flt];
-     [v_flt]; [v_int; v_flt]; [v_flt]; []; [v_flt]; []].
+     [v_flt]; [v_int; v_flt]; [v_flt]; []; [v_flt]; [v_flt]; []].
 Proof. vm_compute. repeat split; repeat constructor; discriminate. Qed.
 
 (* ---- layering on C24: the same histories with the durable side modelled at the LMDB level
